@@ -379,6 +379,45 @@ def check_stored(case):
     return out
 
 
+WRAP_ORDERS = [["units_system", "time_step", "t_max", "sampling_policy", "rng_seed"],
+               ["time_step", "t_max", "sampling_policy", "rng_seed", "units_system"],
+               ["rng_seed", "t_max", "units_system", "time_step", "sampling_policy"]]
+
+
+def check_wrapper(case):
+    """simulate(system, t_sample, **keywords) is documented as building RDScript(system, t_sample, **keywords) and
+    running it: the same script, hence the same trajectory, whatever the order the keywords are written in."""
+    out = []
+    engine, gtype, policy = case["engine"], case["gtype"], case["policy"]
+    try:
+        from strengths.simulate import simulate, simulate_script
+        from strengths.rdscript import RDScript
+        from mc import uq
+        sc = script_spec(engine, gtype, policy, 4)
+        system = models.build_system(sc["system"])
+        us = uq.mk_sys(tuple(case["units"]))
+        kw = {"units_system": us, "time_step": 0.25 if engine != "gillespie" else 1e-3, "t_max": sc["t_max"],
+              "sampling_policy": policy, "rng_seed": 11}
+        if policy == "on_interval":
+            kw["sampling_interval"] = sc["interval"]
+        ts = list(sc["t_sample"])
+        ref = simulate_script(RDScript(system, ts, **kw), eng.make_engine(engine))
+        rb = (ref.t.value.tobytes(), ref.data.value.tobytes())
+        ordered = {k: kw[k] for k in WRAP_ORDERS[case["order"]] if k in kw}
+        ordered.update({k: v for k, v in kw.items() if k not in ordered})
+        got = simulate(system, ts, engine=eng.make_engine(engine), **ordered)
+        if (got.t.value.tobytes(), got.data.value.tobytes()) != rb:
+            import numpy as np
+            out.append(("C08:wrapper:simulate-differs-from-simulate_script:%s" % engine,
+                        "keywords %s, units %s (%s, %s, %s): simulate() sampled at %r, the script built from the same arguments at %r"
+                        % (list(ordered), case["units"], engine, gtype, policy, got.t.value.tolist()[:6], ref.t.value.tolist()[:6])))
+        if str(got.t.units) != str(ref.t.units) or str(got.data.units) != str(ref.data.units):
+            out.append(("C08:wrapper:units-differ", "%s / %s vs %s / %s" % (got.t.units, got.data.units, ref.t.units, ref.data.units)))
+    except Exception as ex:
+        out.append(("C08:wrapper:unexpected-exception", "%s: %s" % (type(ex).__name__, ex)))
+    return out
+
+
 def check_given_seed(case):
     """An explicitly given seed is kept, and the script built twice from the same description gives the same trajectory."""
     out = []
@@ -410,6 +449,8 @@ def check_case(case):
         return check_history(case)
     if case["sub"] == "stored":
         return check_stored(case)
+    if case["sub"] == "wrapper":
+        return check_wrapper(case)
     return check_seed(case)
 
 
@@ -506,6 +547,13 @@ def gen_cases(tier, seed0):
                 for side in ("caller-edited", "stored-edited"):
                     stored.append({"sub": "stored", "engine": e, "gtype": g, "policy": p, "mutation": how, "side": side})
     cases += stored
+    wrap = []
+    for (e, g) in KINDS:
+        for p in POLICIES[:3]:
+            for us3 in (["µm", "s", "molecule"], ["µm", "ms", "molecule"], ["nm", "min", "nmol"]):
+                for o in range(len(WRAP_ORDERS)):
+                    wrap.append({"sub": "wrapper", "engine": e, "gtype": g, "policy": p, "units": us3, "order": o})
+    cases += wrap
     sizes = [("driver schedules: all %d ways to consume a %d-iteration run with iterate / iterate_n(1..3) / run(0) / clock-scripted "
               "run slices of 1..3 iterations / run-to-completion x %d scripts (engines x space types x policies)" % (nsch, n, len(scripts)),
               nsch * len(scripts)),
@@ -516,7 +564,9 @@ def gen_cases(tier, seed0):
               "does not (Euler): 24 scripts x seed window", len(seeds)),
              ("explicitly given seeds {0, 1, 2^31-1, 2^31, 2^32-1} x 6 kinds: seed kept, same description twice => same trajectory", len(given)),
              ("stored scripts: 6 kinds x policies x 7 in-place edits (system state / chemostat / raw array item / time step / request list / seed / none) of "
-              "{the caller's script, the stored script} after the run: the other one still reproduces the trajectory", len(stored))]
+              "{the caller's script, the stored script} after the run: the other one still reproduces the trajectory", len(stored)),
+             ("simulate() wrapper: 6 kinds x 3 policies x 3 units systems x 3 keyword orders (bare numbers): same trajectory as "
+              "simulate_script(RDScript(same arguments))", len(wrap))]
     return cases, sizes
 
 
